@@ -98,8 +98,14 @@ class StartTaskHandler(StabilizeHandler[StartTask]):
                 if isinstance(task_impl, SkippableTask) and not task_impl.is_enabled(stage):
                     logger.info("Skipping task %s (disabled)", task_model.name)
 
-                    # Mark as skipped - use atomic transaction
-                    self.set_task_status(task_model, WorkflowStatus.SKIPPED)
+                    # The task is completed as SKIPPED by CompleteTaskHandler,
+                    # which - like for every other outcome - only acts on a
+                    # RUNNING task. Marking the task SKIPPED here made that
+                    # CompleteTask a no-op and left the stage RUNNING forever
+                    # with an empty queue, so start it and let CompleteTask
+                    # record the SKIPPED outcome (RUNNING -> SKIPPED).
+                    self.set_task_status(task_model, WorkflowStatus.RUNNING)
+                    task_model.start_time = self.current_time_millis()
                     with self.repository.transaction(self.queue) as txn:
                         txn.store_stage(stage)
                         if message.message_id:
